@@ -543,12 +543,7 @@ func (g *gen) qualifyImport(name, path string) string {
 	if path == g.pkg.PkgPath {
 		return ""
 	}
-	// TODO(light): This is depending on details of the current loader.
-	const vendorPart = "vendor/"
-	unvendored := path
-	if i := strings.LastIndex(path, vendorPart); i != -1 && (i == 0 || path[i-1] == '/') {
-		unvendored = path[i+len(vendorPart):]
-	}
+	unvendored := unvendorPath(path)
 	if info, ok := g.imports[unvendored]; ok {
 		return info.name
 	}
@@ -814,6 +809,24 @@ func zeroValue(t types.Type, qf types.Qualifier) string {
 	default:
 		panic("unreachable")
 	}
+}
+
+// unvendorPath returns the import path that source code must use for a
+// package the loader found at path: everything after the last "vendor" path
+// element. An element that merely ends in "vendor" (as in
+// example.com/app/vendor/github.com/acme/govendor/lib) is not a vendor
+// directory.
+//
+// TODO(light): This is depending on details of the current loader.
+func unvendorPath(path string) string {
+	const vendorElem = "/vendor/"
+	if i := strings.LastIndex(path, vendorElem); i != -1 {
+		return path[i+len(vendorElem):]
+	}
+	if strings.HasPrefix(path, vendorElem[1:]) {
+		return path[len(vendorElem)-1:]
+	}
+	return path
 }
 
 // typeVariableName invents a disambiguated variable name derived from the type name.
